@@ -157,21 +157,151 @@ type exitT struct {
 	results []ssa.Value
 }
 
-// bound: v is, in the current frame, only a name for a value of the caller (and which).
-func (a *tagAnalysis) bound(v ssa.Value) (ssa.Value, bool) {
+// bound: v is, in the current frame, only a name for another value — an argument of the call that created the frame, a promoted
+// captured variable, or a field of a local struct that is assigned once (an encoder state struct built with a composite literal and
+// handed to methods). Returns that value and the frame it belongs to (the caller's, or the current one for a local struct).
+func (a *tagAnalysis) bound(v ssa.Value) (ssa.Value, *frame, bool) {
+	fc := a.cur
+	if fc == nil {
+		return nil, nil, false
+	}
+	// field of a struct: resolve the struct first
+	if u, ok := v.(*ssa.UnOp); ok && u.Op == token.MUL {
+		if fa, ok := u.X.(*ssa.FieldAddr); ok {
+			base, bfr := fa.X, fc
+			for i := 0; i < 4; i++ {
+				if al, isAlloc := base.(*ssa.Alloc); isAlloc {
+					if sv := stableField(a.p, al, fa.Field); sv != nil {
+						return sv, bfr, true
+					}
+					return nil, nil, false
+				}
+				saved := a.cur
+				a.cur = bfr
+				nb, nfr, ok := a.boundSimple(base)
+				a.cur = saved
+				if !ok {
+					break
+				}
+				base, bfr = nb, nfr
+			}
+			return nil, nil, false
+		}
+	}
+	return a.boundSimple(v)
+}
+
+func (a *tagAnalysis) boundSimple(v ssa.Value) (ssa.Value, *frame, bool) {
 	fc := a.cur
 	if fc == nil || fc.parent == nil {
-		return nil, false
+		return nil, nil, false
 	}
 	if bv, ok := fc.bind[v]; ok {
-		return bv, true
+		return bv, fc.parent, true
 	}
 	if cv := a.p.CellValue(v); cv != nil {
 		if vf := cv.Parent(); vf == nil || vf == fc.parent.fn {
-			return cv, true
+			return cv, fc.parent, true
 		}
 	}
-	return nil, false
+	return nil, nil, false
+}
+
+// stableField: the struct allocated at al has its field assigned exactly once in the allocating function, its address is used only
+// to reach fields or as an argument of module functions, and none of those functions (to depth 2) assigns the field: every load of
+// the field yields the assigned value.
+func stableField(p *Prog, al *ssa.Alloc, field int) ssa.Value {
+	var val ssa.Value
+	n := 0
+	okUse := true
+	var checkCallee func(h *ssa.Function, idx int, depth int)
+	checkCallee = func(h *ssa.Function, idx int, depth int) {
+		if h == nil || !p.InModule(h) || len(h.Blocks) == 0 || idx >= len(h.Params) || depth > 2 {
+			okUse = false
+			return
+		}
+		for _, ref := range *h.Params[idx].Referrers() {
+			switch y := ref.(type) {
+			case *ssa.FieldAddr:
+				if y.Field != field {
+					continue
+				}
+				for _, r2 := range *y.Referrers() {
+					if st, isSt := r2.(*ssa.Store); isSt && st.Addr == ssa.Value(y) {
+						okUse = false
+					}
+				}
+			case ssa.CallInstruction:
+				for i, arg := range y.Common().Args {
+					if arg == ssa.Value(h.Params[idx]) {
+						checkCallee(staticCallee(y.Common()), i, depth+1)
+					}
+				}
+			case *ssa.DebugRef:
+			default:
+				okUse = false
+			}
+		}
+	}
+	for _, ref := range *al.Referrers() {
+		switch y := ref.(type) {
+		case *ssa.FieldAddr:
+			if y.Field != field {
+				continue
+			}
+			for _, r2 := range *y.Referrers() {
+				switch z := r2.(type) {
+				case *ssa.Store:
+					if z.Addr == ssa.Value(y) {
+						val = z.Val
+						n++
+					} else {
+						okUse = false
+					}
+				case *ssa.UnOp:
+				default:
+					okUse = false
+				}
+			}
+		case ssa.CallInstruction:
+			for i, arg := range y.Common().Args {
+				if arg == ssa.Value(al) {
+					checkCallee(staticCallee(y.Common()), i, 1)
+				}
+			}
+		case *ssa.DebugRef:
+		default:
+			okUse = false
+		}
+	}
+	if n != 1 || !okUse {
+		return nil
+	}
+	return val
+}
+
+// inFrame evaluates f in frame fr; tupleFor gives the path state that belongs to fr: the current one for the current frame, the
+// state at the call for the caller's frame.
+func (a *tagAnalysis) inFrame(fr *frame, f func()) {
+	saved := a.cur
+	a.cur = fr
+	a.swapFn()
+	f()
+	a.cur = saved
+	a.swapFn()
+}
+
+func (a *tagAnalysis) tupleFor(fr *frame, t tagTuple) tagTuple {
+	if fr == a.cur {
+		return t
+	}
+	// walk up: the state at the call that created the child of fr on the current stack
+	for c := a.cur; c != nil && c.parent != nil; c = c.parent {
+		if c.parent == fr {
+			return c.callerT
+		}
+	}
+	return t
 }
 
 // inParent evaluates f in the caller's frame.
@@ -198,21 +328,21 @@ func (a *tagAnalysis) isBufVal(v ssa.Value) bool {
 	if v == ssa.Value(a.buf) {
 		return true
 	}
-	if bv, ok := a.bound(v); ok {
+	if bv, bfr, ok := a.bound(v); ok {
 		r := false
 		callerT := a.cur.callerT
 		_ = callerT
-		a.inParent(func() { r = a.isBufVal(bv) })
+		a.inFrame(bfr, func() { r = a.isBufVal(bv) })
 		return r
 	}
 	return false
 }
 
 func (a *tagAnalysis) rootOf(t tagTuple, v ssa.Value) ssa.Value {
-	if bv, ok := a.bound(v); ok {
+	if bv, bfr, ok := a.bound(v); ok {
 		var r ssa.Value
-		ct := a.cur.callerT
-		a.inParent(func() { r = a.rootOf(ct, bv) })
+		ct := a.tupleFor(bfr, t)
+		a.inFrame(bfr, func() { r = a.rootOf(ct, bv) })
 		return r
 	}
 	return v
@@ -304,10 +434,10 @@ func (a *tagAnalysis) isDer(t tagTuple, v ssa.Value, depth int) bool {
 	if v == nil || a.src == nil {
 		return false
 	}
-	if bv, ok := a.bound(v); ok {
+	if bv, bfr, ok := a.bound(v); ok {
 		r := false
-		ct := a.cur.callerT
-		a.inParent(func() { r = a.isDer(ct, bv, depth+1) })
+		ct := a.tupleFor(bfr, t)
+		a.inFrame(bfr, func() { r = a.isDer(ct, bv, depth+1) })
 		return r
 	}
 	if a.sameAsSrc(v) {
@@ -380,10 +510,10 @@ func (a *tagAnalysis) sameAsSrc(v ssa.Value) bool {
 
 // isSrcNow: on this path v holds the content source itself (the source, a re-evaluation of it, or a phi whose incoming value was it).
 func (a *tagAnalysis) isSrcNow(t tagTuple, v ssa.Value) bool {
-	if bv, ok := a.bound(v); ok {
+	if bv, bfr, ok := a.bound(v); ok {
 		r := false
-		ct := a.cur.callerT
-		a.inParent(func() { r = a.isSrcNow(ct, bv) })
+		ct := a.tupleFor(bfr, t)
+		a.inFrame(bfr, func() { r = a.isSrcNow(ct, bv) })
 		return r
 	}
 	if a.sameAsSrc(v) {
@@ -465,9 +595,9 @@ func (a *tagAnalysis) opParts(t tagTuple, v ssa.Value) []ssa.Value {
 				}
 			}
 		}
-		if bv, ok := a.bound(v); ok {
-			ct := a.cur.callerT
-			a.inParent(func() { out = append(out, a.opParts(ct, bv)...) })
+		if bv, bfr, ok := a.bound(v); ok {
+			ct := a.tupleFor(bfr, t)
+			a.inFrame(bfr, func() { out = append(out, a.opParts(ct, bv)...) })
 			return
 		}
 		out = append(out, v)
@@ -719,13 +849,13 @@ func flipTF(s string) string {
 }
 
 func (a *tagAnalysis) getVal(t tagTuple, v ssa.Value) string {
-	if bv, ok := a.bound(v); ok {
+	if bv, bfr, ok := a.bound(v); ok {
 		if r, have := t.vals["b:"+v.Name()]; have {
 			return r
 		}
 		r := ""
-		ct := a.cur.callerT
-		a.inParent(func() { r = a.absOf(ct, bv) })
+		ct := a.tupleFor(bfr, t)
+		a.inFrame(bfr, func() { r = a.absOf(ct, bv) })
 		return r
 	}
 	k, flip := a.vk(v)
@@ -737,7 +867,7 @@ func (a *tagAnalysis) getVal(t tagTuple, v ssa.Value) string {
 }
 
 func (a *tagAnalysis) setVal(t tagTuple, v ssa.Value, val string) {
-	if _, ok := a.bound(v); ok {
+	if _, _, ok := a.bound(v); ok {
 		t.vals["b:"+v.Name()] = val
 		return
 	}
@@ -1463,9 +1593,9 @@ func (a *tagAnalysis) isValueLike(v ssa.Value) bool {
 	if !isIfaceType(v.Type()) {
 		return false
 	}
-	if bv, ok := a.bound(v); ok {
+	if bv, bfr, ok := a.bound(v); ok {
 		r := false
-		a.inParent(func() { r = a.isValueLike(bv) })
+		a.inFrame(bfr, func() { r = a.isValueLike(bv) })
 		return r
 	}
 	if a.cur.parent == nil {
@@ -1487,9 +1617,9 @@ func (a *tagAnalysis) isValueLike(v ssa.Value) bool {
 
 // domainOf: the set of dynamic types a subject ranges over (nil: no domain restriction).
 func (a *tagAnalysis) domainOf(v ssa.Value) map[string]bool {
-	if bv, ok := a.bound(v); ok {
+	if bv, bfr, ok := a.bound(v); ok {
 		var r map[string]bool
-		a.inParent(func() { r = a.domainOf(bv) })
+		a.inFrame(bfr, func() { r = a.domainOf(bv) })
 		return r
 	}
 	if a.cur.parent == nil && (v == ssa.Value(a.valueP) || phiChainReachesValue(v, a.valueP)) {
@@ -1508,10 +1638,10 @@ func (a *tagAnalysis) typeOfVal(t tagTuple, v ssa.Value) tset {
 	if ts, ok := t.types[v.Name()]; ok {
 		return ts
 	}
-	if bv, ok := a.bound(v); ok {
+	if bv, bfr, ok := a.bound(v); ok {
 		r := topT()
-		ct := a.cur.callerT
-		a.inParent(func() { r = a.typeOfVal(ct, bv) })
+		ct := a.tupleFor(bfr, t)
+		a.inFrame(bfr, func() { r = a.typeOfVal(ct, bv) })
 		return r
 	}
 	return topT()
@@ -1880,6 +2010,32 @@ func (a *tagAnalysis) touchesBuf(cm *ssa.CallCommon) bool {
 	for _, arg := range cm.Args {
 		if a.isBufVal(arg) {
 			return true
+		}
+		// a state struct that carries the buffer in one of its fields
+		root := arg
+		fr := a.cur
+		for i := 0; i < 4 && fr != nil; i++ {
+			saved := a.cur
+			a.cur = fr
+			nb, nfr, ok := a.boundSimple(root)
+			a.cur = saved
+			if !ok {
+				break
+			}
+			root, fr = nb, nfr
+		}
+		if al, ok := root.(*ssa.Alloc); ok {
+			if st, isStruct := derefType(al.Type()).Underlying().(*types.Struct); isStruct {
+				for f := 0; f < st.NumFields(); f++ {
+					if sv := stableField(a.p, al, f); sv != nil {
+						hit := false
+						a.inFrame(fr, func() { hit = a.isBufVal(sv) })
+						if hit {
+							return true
+						}
+					}
+				}
+			}
 		}
 	}
 	if mc, ok := cm.Value.(*ssa.MakeClosure); ok {
